@@ -180,6 +180,18 @@ Definition spec_C15 (i o : term) : bool :=
     | 1%Z => Qle_bool (Qabs (parse_dec (trim_suffix "%" (trim_prefix " " (trim_prefix " " (gs o)))) - r)) ((1 # 199) + eps * r)
     | _ => true
     end
+  else if String.eqb op "common" then
+    (* harmonising picks the FINEST unit of the list (so that no profile loses precision): every
+       input unit is a whole-or-larger multiple of the chosen one *)
+    match gl o with
+    | [TS "ok"; TS t; TS u] =>
+        forallb (fun e => let ui := gs (gn e 1) in
+                          match family_of uts ui, family_of uts u with
+                          | Some (_, a), Some (_, b) => Qle_bool (u_factor b) (u_factor a)
+                          | _, _ => true
+                          end) (gl (gn i 1))
+    | _ => true
+    end
   else true.
 
 Definition judge_C15 := judge_all run_C15 eqv_C15_in spec_C15 cls_C15 0%Z.
